@@ -999,3 +999,51 @@ def r07_13_calendar_text_symmetry(ctx: Ctx) -> RuleResult:
     if not found:
         raise AnalysisError("calendar specifier handler (CalendarSystem.for_id in a nested parse action) not found")
     return rr
+
+
+# ------------------------------------------------------------------------------------------- R07.14 date / time field masks
+
+
+@rule("C07")
+def r07_14_field_masks(ctx: Ctx) -> RuleResult:
+    """A LocalDateTime bucket splits the fields a pattern used into the date part and the time part with the masks ALL_DATE_FIELDS
+    and ALL_TIME_FIELDS and hands each part to the date / time bucket.  A field missing from its mask is silently dropped there:
+    without YEAR_TWO_DIGITS the date bucket no longer knows that `yy` was a two-digit year and takes 31 for the year 31.  The
+    flags are evaluated from the class body: single fields are distinct bits, the two masks are disjoint, and every single field
+    whose name denotes a date (year / month / day / era / calendar / embedded date) or time (hours / minutes / seconds / am-pm /
+    embedded time) component is in the corresponding mask."""
+    from ..kit import eval_int_expr
+
+    rr = RuleResult("R07.14", "_PatternFields: ALL_DATE_FIELDS / ALL_TIME_FIELDS are disjoint and contain every date / time component field", min_instances=3)
+    M = ctx.M
+    c = M.cls("_PatternFields")
+    env: dict[str, int] = {}
+    for s in c.node.body:
+        if isinstance(s, ast.Assign) and len(s.targets) == 1 and isinstance(s.targets[0], ast.Name):
+            v = eval_int_expr(s.value, env, lambda e: None)
+            if v is not None:
+                env[s.targets[0].id] = v
+    singles = {n: v for n, v in env.items() if v and v & (v - 1) == 0}
+    loc = f"{c.mod.rel}:{c.node.lineno}"
+    rr.inst()
+    if len(set(singles.values())) == len(singles) and len(singles) >= 20:
+        rr.ok({"single fields": len(singles)})
+    else:
+        rr.fail(c.qual, "single pattern fields are not distinct bits", loc)
+    import re
+
+    date_names = [n for n in singles if re.match(r"(YEAR|MONTH|DAY|ERA$|CALENDAR$|EMBEDDED_DATE$)", n)]
+    time_names = [n for n in singles if re.match(r"(HOURS|MINUTES$|SECONDS$|FRACTIONAL_SECONDS$|AM_PM$|EMBEDDED_TIME$)", n)]
+    for mask, names in (("ALL_DATE_FIELDS", date_names), ("ALL_TIME_FIELDS", time_names)):
+        rr.inst()
+        got = env.get(mask)
+        want = 0
+        for n in names:
+            want |= singles[n]
+        if got == want:
+            rr.ok({mask: sorted(names)})
+        else:
+            missing = [n for n in names if not (got or 0) & singles[n]]
+            extra = [n for n, v in singles.items() if (got or 0) & v and n not in names]
+            rr.fail(c.qual, f"{mask}: missing {missing}, unexpected {extra}: a field outside its mask is dropped when the date-time bucket hands the fields to the date / time bucket", loc)
+    return rr
